@@ -117,56 +117,68 @@ def c12_claim(R):
     R.need(n_mut >= 2, f"only {n_mut} child mutation sites found in CompositeFrontend (anchor moved)")
     # _claim itself: branches a child that is not owned and records the branch as owned
     claim = tree.func(CO, "CompositeFrontend._claim")
-    ok_branch = ok_own = ok_guard = False
-    for n in walk_no_nested(claim):
-        if isinstance(n, ast.If):
-            t = n.test
-            if (
-                isinstance(t, ast.Compare)
-                and isinstance(t.ops[0], ast.NotIn)
-                and dotted(t.comparators[0]) == "self._owned_solvers"
-            ):
-                ok_guard = True
-                for x in ast.walk(n):
-                    if isinstance(x, ast.Call) and isinstance(x.func, ast.Attribute):
-                        if x.func.attr == "branch":
-                            ok_branch = True
-                        if x.func.attr == "add" and dotted(x.func.value) == "self._owned_solvers":
-                            ok_own = True
-                rets = [r for r in n.body if isinstance(r, ast.Return)]
-                if rets and isinstance(rets[-1].value, ast.Name):
-                    # the value returned for an un-owned child is unconditionally a fresh branch of it
-                    defs = [st for st in n.body if isinstance(st, ast.Assign) and ast.unparse(st.targets[0]) == rets[-1].value.id]
-                    p1 = util.func_param(claim, 1)
-                    R.check(
-                        len(defs) == 1
-                        and isinstance(defs[0].value, ast.Call)
-                        and isinstance(defs[0].value.func, ast.Attribute)
-                        and defs[0].value.func.attr == "branch"
-                        and ast.unparse(defs[0].value.func.value) == p1,
-                        m,
-                        defs[0] if defs else n,
-                        "_claim: an un-owned child is always branched before it is handed out",
-                        f"_claim hands out `{norm(defs[0].value) if defs else None}` for a child it does not own: in some "
-                        f"case the shared child itself is returned and then modified in place",
-                    )
-                if rets:
-                    rv = rets[-1].value
-                    R.check(
-                        isinstance(rv, ast.Name) and rv.id != util.func_param(claim, 1),
-                        m,
-                        rets[-1],
-                        "_claim returns the private branch for a child it does not own",
-                        "_claim returns the shared child itself although it is not owned",
-                    )
-    R.check(
-        ok_guard and ok_branch and ok_own,
-        m,
-        claim,
-        "_claim: not owned -> branch, record the branch as owned",
-        "_claim no longer branches un-owned children and records the branch in _owned_solvers",
-        construct="CompositeFrontend._claim protocol",
-    )
+    p1 = util.func_param(claim, 1)
+
+    def owned_fact(t, pol):
+        """True / False when the fact says the child is / is not in self._owned_solvers, else None"""
+        if isinstance(t, ast.Compare) and len(t.ops) == 1 and ast.unparse(t.left) == p1 and dotted(t.comparators[0]) == "self._owned_solvers":
+            if isinstance(t.ops[0], ast.In):
+                return pol
+            if isinstance(t.ops[0], ast.NotIn):
+                return not pol
+        return None
+
+    rets = [r for r in walk_no_nested(claim) if isinstance(r, ast.Return)]
+    R.need(rets, "_claim has no return")
+    saw_unowned = False
+    for r in rets:
+        status = [owned_fact(t, pol) for t, pol in guards.guards_of(r)]
+        is_owned = True in status
+        rv = r.value
+        if is_owned:
+            R.check(rv is not None and ast.unparse(rv) == p1, m, r, "_claim: an owned child is handed back as is", f"_claim returns `{norm(rv) if rv is not None else None}` for a child it already owns", construct="_claim owned arm")
+            continue
+        saw_unowned = True
+        # not (known to be) owned: the value handed out is a fresh branch of the child, recorded as owned
+        defs = [st for st in walk_no_nested(claim) if isinstance(st, ast.Assign) and isinstance(rv, ast.Name) and ast.unparse(st.targets[0]) == rv.id]
+        branched = (
+            isinstance(rv, ast.Name)
+            and rv.id != p1
+            and len(defs) == 1
+            and isinstance(defs[0].value, ast.Call)
+            and isinstance(defs[0].value.func, ast.Attribute)
+            and defs[0].value.func.attr == "branch"
+            and ast.unparse(defs[0].value.func.value) == p1
+            and not [g for g in guards.guards_of(defs[0]) if g not in guards.guards_of(r) and owned_fact(*g) is None]
+        )
+        R.check(
+            branched,
+            m,
+            r,
+            "_claim: an un-owned child is always branched before it is handed out",
+            f"_claim hands out `{norm(rv) if rv is not None else None}` for a child it does not own: in some "
+            f"case the shared child itself is returned and then modified in place",
+            construct="_claim unowned arm returns a fresh branch",
+        )
+        recorded = any(
+            isinstance(c.func, ast.Attribute)
+            and c.func.attr == "add"
+            and dotted(c.func.value) == "self._owned_solvers"
+            and c.args
+            and isinstance(rv, ast.Name)
+            and ast.unparse(c.args[0]) == rv.id
+            and not [g for g in guards.guards_of(c) if owned_fact(*g) is None and g not in guards.guards_of(r)]
+            for c in _calls(claim)
+        )
+        R.check(
+            recorded,
+            m,
+            r,
+            "_claim records the branch as owned",
+            "_claim no longer branches un-owned children and records the branch in _owned_solvers",
+            construct="CompositeFrontend._claim protocol",
+        )
+    R.check(saw_unowned, m, claim, "_claim has an arm for children it does not own", "_claim never branches: every child is treated as owned", construct="_claim unowned arm exists")
 
 
 @rule(
@@ -691,7 +703,7 @@ def c13_polarity(R):
     m = tree.mod(RF)
     # single-assignment locals are replaced by what they stand for (`rc = c`, `rold = self._replacement(old)`), so the
     # arms read in terms of the loop variable whatever the intermediates are called
-    fn = util.resolve_locals(tree.func(RF, "ReplacementFrontend._add"))
+    fn = util.resolve_locals(tree.func_inlined(RF, "ReplacementFrontend._add", exclude=("add_replacement", "_replacement", "_replace_list")))
     loops = [st for st in walk_no_nested(fn) if isinstance(st, ast.For) and ast.unparse(st.iter) == "constraints" and isinstance(st.target, ast.Name)]
     R.need(len(loops) == 1, "ReplacementFrontend._add: loop over the added constraints not found")
     L = loops[0].target.id
@@ -927,47 +939,49 @@ def c15_merge(R):
         "merge without ancestor does not start from self.blank_copy()",
         construct="merge: merged = self.blank_copy()",
     )
-    loop = next((s for s in noanc if isinstance(s, ast.For)), None)
-    R.need(loop is not None, "merge: pairing loop not found")
-    it = loop.iter
+    # the pairing: a comprehension over zip(solvers, conditions) (an append loop is read as that comprehension)
+    comps = [c for st in noanc for c in ast.walk(st) if isinstance(c, ast.ListComp) and len(c.generators) == 1 and isinstance(c.generators[0].iter, ast.Call) and dotted(c.generators[0].iter.func) == "zip"]
+    R.need(len(comps) == 1, "merge: pairing of solvers with conditions (zip) not found")
+    comp = comps[0]
+    it = comp.generators[0].iter
     ok_zip = (
-        isinstance(it, ast.Call)
-        and dotted(it.func) == "zip"
-        and len(it.args) >= 2
+        len(it.args) >= 2
         and ast.unparse(it.args[0]) in ("[self, *others]", "[self] + others", "[self] + list(others)", "(self, *others)")
         and ast.unparse(it.args[1]) == "merge_conditions"
     )
     R.check(
         ok_zip,
         m,
-        loop,
+        comp,
         "conditions are paired with [self, *others] in order",
         f"merge pairs `{norm(it)}`: condition i must go with solver i of [self, *others]",
+        construct="merge pairing",
     )
-    tgt = [ast.unparse(e) for e in loop.target.elts] if isinstance(loop.target, ast.Tuple) else []
-    ands = [c for c in ast.walk(loop) if isinstance(c, ast.Call) and dotted(c.func) in ("And", "claripy.And")]
-    R.need(len(ands) == 1 and len(tgt) == 2, "merge: And(...) per option not found")
-    inner = ast.unparse(ands[0])
+    tgt = [ast.unparse(e) for e in comp.generators[0].target.elts] if isinstance(comp.generators[0].target, ast.Tuple) else []
+    ands = [c for c in ast.walk(comp.elt) if isinstance(c, ast.Call) and dotted(c.func) in ("And", "claripy.And")]
+    R.need(len(ands) == 1 and len(tgt) == 2 and not comp.generators[0].ifs, "merge: And(...) per option not found")
+    names_in = {x.id for x in ast.walk(ands[0]) if isinstance(x, ast.Name)}
+    attrs_in = {ast.unparse(x) for x in ast.walk(ands[0]) if isinstance(x, ast.Attribute)}
     R.check(
-        tgt[1] in inner and f"{tgt[0]}.constraints" in inner,
+        tgt[1] in names_in and f"{tgt[0]}.constraints" in attrs_in,
         m,
         ands[0],
         "each option is And(condition_i, *constraints_i)",
-        f"option built as `{inner}`: it must conjoin the condition with that solver's constraints",
+        f"option built as `{norm(ands[0])}`: it must conjoin the condition with that solver's constraints",
+        construct="merge option",
     )
     ors = [c for s in noanc for c in ast.walk(s) if isinstance(c, ast.Call) and dotted(c.func) in ("Or", "claripy.Or")]
-    # the list the loop appends each And(...) to is the one the Or ranges over
-    appended = [
-        ast.unparse(c.func.value)
-        for c in ast.walk(loop)
-        if isinstance(c, ast.Call) and isinstance(c.func, ast.Attribute) and c.func.attr == "append" and c.args and any(a is ands[0] for a in ast.walk(c.args[0]))
-    ]
+    # the list of options is what the Or ranges over
+    holder = comp._parent.targets[0].id if isinstance(comp._parent, ast.Assign) and isinstance(comp._parent.targets[0], ast.Name) else None
     R.check(
-        len(ors) == 1 and len(appended) == 1 and len(ors[0].args) == 1 and isinstance(ors[0].args[0], ast.Starred) and ast.unparse(ors[0].args[0].value) == appended[0],
+        len(ors) == 1
+        and len(ors[0].args) == 1
+        and isinstance(ors[0].args[0], ast.Starred)
+        and (ast.unparse(ors[0].args[0].value) == holder or ors[0].args[0].value is comp),
         m,
         top[0],
         "the merged constraint is the disjunction of the options",
-        f"merged constraint is `{norm(ors[0]) if ors else None}`; expected Or(*options)",
+        f"merged constraint is `{norm(ors[0]) if ors else None}`; expected the Or over all options",
         construct="merge: Or(*options)",
     )
     atxt = "\n".join(ast.unparse(s) for s in anc)
